@@ -133,7 +133,10 @@ class ExpandedTraceback:
         self.full_traceback = full_traceback
         self.hide_filenames = hide_filenames
         self.show_filenames = show_filenames
-        self.line_number = traceback.extract_tb(exc_info[2])[-1][1]
+        # The location of the error, like the frames of the traceback, is a line of the
+        # whole file even while only a section of it is being executed
+        innermost = traceback.extract_tb(exc_info[2])[-1]
+        self.line_number = innermost[1] + line_offsets.get(innermost[0], 0)
         self.original_code_lines = original_code_lines
         self.student_files = student_files
 
